@@ -502,6 +502,33 @@ fn run(ctx: &mut Ctx) {
             Err(p) => c.violation(format!("C19:temporaries-program-crashes-build-or-link:{}", crate::diff::msg_class(&p.site)), format!("build + link crashes at {}", p.site), json!({"source": src})),
         });
     }
+    // instance names of NESTED generic applications next to user types whose names contain `__`: `Bx[Bx[int32]]` and a
+    // user struct `Bx__Bx[int32]` are different types with different impls (added after a seeded change that
+    // collapsed the arguments before naming the instance, which made the encoding non-injective)
+    {
+        let variants: [(&str, String); 3] = [
+            ("struct-in-struct", "struct Bx[T] { v: T }\nstruct Bx__Bx[T] { w: T }\ntrait Dsp {\n    fn d(Self) -> string;\n}\nimpl Dsp for Bx[Bx[int32]] {\n    fn d(self: Bx[Bx[int32]]) -> string { \"nested\" }\n}\nimpl Dsp for Bx__Bx[int32] {\n    fn d(self: Bx__Bx[int32]) -> string { \"double\" }\n}\nfn main() -> unit {\n    let a: Bx[Bx[int32]] = Bx { v: Bx { v: 1 } };\n    let b: Bx__Bx[int32] = Bx__Bx { w: 2 };\n    let _ = string_println(Dsp::d(a));\n    let _ = string_println(Dsp::d(b));\n    let xa: Bx[Bx[int32]] = Bx { v: Bx { v: 3 } };\n    let xb: Bx__Bx[int32] = Bx__Bx { w: 4 };\n    let da: dyn Dsp = xa;\n    let db: dyn Dsp = xb;\n    let _ = string_println(Dsp::d(da) + \"/\" + Dsp::d(db));\n    ()\n}\n".to_string()),
+            ("enum-in-enum", "enum Op[T] { Sm(T), Nn }\nenum Op__Op[T] { Tw(T), Ze }\nfn fa(o: Op[Op[int32]]) -> string { match o { Op::Sm(_) => \"nested\", Op::Nn => \"none\" } }\nfn fb(o: Op__Op[int32]) -> string { match o { Op__Op::Tw(_) => \"double\", Op__Op::Ze => \"zero\" } }\nfn main() -> unit {\n    let a: Op[Op[int32]] = Op::Sm(Op::Sm(1));\n    let b: Op__Op[int32] = Op__Op::Tw(2);\n    let _ = string_println(fa(a));\n    let _ = string_println(fb(b));\n    let _ = string_println(fa(Op::Nn) + \"/\" + fb(Op__Op::Ze));\n    ()\n}\n".to_string()),
+            ("two-parameters", "struct Pq[A, B] { a: A, b: B }\nstruct Pq__Pq__int32__bool[B] { c: B }\nfn fa(p: Pq[Pq[int32, bool], string]) -> string { \"nested:\" + p.b }\nfn fb(p: Pq__Pq__int32__bool[string]) -> string { \"flat:\" + p.c }\nfn main() -> unit {\n    let a: Pq[Pq[int32, bool], string] = Pq { a: Pq { a: 1, b: true }, b: \"x\" };\n    let b: Pq__Pq__int32__bool[string] = Pq__Pq__int32__bool { c: \"y\" };\n    let _ = string_println(fa(a));\n    let _ = string_println(fb(b));\n    ()\n}\n".to_string()),
+        ];
+        let expected = ["nested\ndouble\nnested/double\n", "nested\ndouble\nnone/zero\n", "nested:x\nflat:y\n"];
+        for (i, (name, src)) in variants.iter().enumerate() {
+            if !ctx.mine(44_000 + i as u64) {
+                continue;
+            }
+            let label = format!("nested-instance-names/{}", name);
+            ctx.case(&label.clone(), |c| {
+                if let Some((out, term, stderr)) = crate::exec::run_source(c, "C19", &label, src, 1_000_000) {
+                    if out == expected[i] && matches!(term, crate::goexec::Term::Ok) {
+                        c.count("nested_instance_name_programs_ok", 1);
+                        c.nontrivial(hash_str(src));
+                    } else {
+                        c.violation(format!("C19:nested-instance-names-share-a-go-name:{}", name), format!("{} prints {:?} ({:?} {}), expected {:?}", label, out, term, util::truncate(&stderr, 80), expected[i]), json!({"label": label, "source": src}));
+                    }
+                }
+            });
+        }
+    }
     // A. renamings
     let opts = DiffOpts { prop: "C19", vet_is_violation: false, budget: 400_000, print: PrintOpts::default() };
     let n = tier.pickn(240u64, 6_400u64) / ctx.nshards as u64 + 1;
